@@ -38,3 +38,15 @@ Proof. exists f6_p, f6_l, f5_hdr, [], f6_d. split; [exact f6_repr|].
   split; [apply is_bytesb_ok; reflexivity|]. split.
   - exists (set_tpd f6_l (Some f6_d)). exists []. split; [reflexivity|]. split; [constructor|]. vm_compute. reflexivity.
   - split; [vm_compute; reflexivity|]. eexists. vm_compute. reflexivity. Qed.
+
+(* F11 (the adaptation-field part): on garbage length bytes the pinned getters and resizeAF panic, the repaired
+   ones return ErrInvalidPacketLength (Proofs/AFTotal.v proves that they never panic). *)
+Definition garbage_p : bytes := [71; 0; 1; 32; 183; 3; 250; 1; 2; 3] ++ repeatN 255 178.
+Theorem F11_af_pinned_panics : length garbage_p = 188%nat /\ is_bytes garbage_p /\
+  AFPinned.TransportPrivateData garbage_p = Panic /\ AFPinned.AdaptationFieldExtension garbage_p = Panic /\
+  AFPinned.fnTransportPrivateData garbage_p = Panic /\
+  AFPinned.SetHasTransportPrivateData garbage_p false = Panic /\
+  AF.TransportPrivateData garbage_p = Err E.InvalidPacketLength /\
+  AF.AdaptationFieldExtension garbage_p = Err E.InvalidPacketLength /\
+  AF.SetHasTransportPrivateData garbage_p false = Err E.InvalidPacketLength.
+Proof. split; [reflexivity|]. split; [apply is_bytesb_ok; reflexivity|]. vm_compute. repeat split. Qed.
